@@ -20,4 +20,15 @@ inline uint32_t golay24(uint16_t d)
 
 inline int popcnt(uint32_t x) { int n = 0; while (x) { n += x & 1; x >>= 1; } return n; }
 
+// M17 CRC-16: poly 0x5935, init 0xFFFF, MSB first, no reflection, no final xor (direct form)
+inline uint16_t crc16(const uint8_t* p, size_t n)
+{
+    uint16_t r = 0xFFFF;
+    for (size_t k = 0; k < n; ++k) {
+        r ^= uint16_t(p[k]) << 8;
+        for (int i = 0; i < 8; ++i) r = (r & 0x8000) ? uint16_t((r << 1) ^ 0x5935) : uint16_t(r << 1);
+    }
+    return r;
+}
+
 } // namespace spec
